@@ -504,6 +504,9 @@ func writeEvidence(w World, tier string, base uint64, st *Stats, t0 time.Time, n
 		return err
 	}
 	dir := filepath.Join(verifDir(), "evidence")
+	if d := os.Getenv("SIM_EVIDENCE_DIR"); d != "" {
+		dir = d // runs against a tree other than /repo (mutants) must not overwrite evidence
+	}
 	if err := os.MkdirAll(dir, 0o755); err != nil {
 		return err
 	}
